@@ -168,14 +168,30 @@ func runUnit(u Unit, cfg *PropConfig, tier string, workdir string, res *checkRes
 	e.incClose()
 	// group
 	byName := map[string]*group{}
+	// vacuity covers: a cover name is vacuous only when every instance (path) of it is unsatisfiable
+	coverAlive := map[string]bool{}
+	coverDesc := map[string]string{}
 	for _, o := range e.obligations {
 		if o.ExpectSat {
-			res.covers++
-			if o.Result.Status == "sat" || o.Result.Status == "unknown" || o.Result.Status == "timeout" {
-				res.coverOK++
-			} else if o.Result.Status == "unsat" {
-				res.engineErrors = append(res.engineErrors, "vacuous: "+o.Name+" ("+o.Desc+") is unsatisfiable")
+			if _, ok := coverAlive[o.Name]; !ok {
+				coverAlive[o.Name] = false
+				coverDesc[o.Name] = o.Desc
 			}
+			if o.Result.Status != "unsat" {
+				coverAlive[o.Name] = true
+			}
+		}
+	}
+	for _, name := range sortedKeys(coverAlive) {
+		res.covers++
+		if coverAlive[name] {
+			res.coverOK++
+		} else {
+			res.engineErrors = append(res.engineErrors, "vacuous: "+name+" ("+coverDesc[name]+") is unsatisfiable on every path")
+		}
+	}
+	for _, o := range e.obligations {
+		if o.ExpectSat {
 			continue
 		}
 		g := byName[o.Name]
@@ -492,11 +508,15 @@ func (e *Engine) discharge(workdir string, timeout int) {
 			for _, in := range o.InputVals {
 				gv = append(gv, modelTerms(in)...)
 			}
-			q := e.u.Query(o.Assumes, o.Goal, gv)
-			r := Solve(workdir, fmt.Sprintf("%s.%d", o.Name, i), q, timeout, nil)
+			q := o.U.Query(o.Assumes, o.Goal, gv)
+			to := timeout
+			if o.ExpectSat {
+				to = 3 // vacuity covers: only an "unsat" answer matters
+			}
+			r := Solve(workdir, fmt.Sprintf("%s.%d", o.Name, i), q, to, nil)
 			if r.Status == "sat" && o.Hint != nil && !o.ExpectSat {
 				// look for a more realistic counterexample (replay hint); the verdict is already fixed
-				q2 := e.u.Query(append(append([]Term(nil), o.Assumes...), *o.Hint), o.Goal, gv)
+				q2 := o.U.Query(append(append([]Term(nil), o.Assumes...), *o.Hint), o.Goal, gv)
 				r2 := Solve(workdir, fmt.Sprintf("%s.%d.hint", o.Name, i), q2, 5, nil)
 				if r2.Status == "sat" {
 					r.Values = r2.Values
@@ -523,7 +543,7 @@ func (e *Engine) discharge(workdir string, timeout int) {
 			for _, in := range o.InputVals {
 				gv = append(gv, modelTerms(in)...)
 			}
-			q := e.u.Query(o.Assumes, o.Goal, gv)
+			q := o.U.Query(o.Assumes, o.Goal, gv)
 			r := solveRace(workdir, fmt.Sprintf("%s.%d.retry", o.Name, i), q, 2*timeout, nil)
 			if r.Status == "unsat" || r.Status == "sat" {
 				r.Secs += o.Result.Secs
